@@ -36,7 +36,6 @@ def compile_script(script_path: str) -> CompilerOutput:
     script_name = os.path.basename(script_path)
     if script_name.endswith(".py"):
         script_name = script_name[:-3]
-    timer.start("nada_dsl.compile.compile.__import__")
     # Load the program from the given path. Importing it by name would return whatever module
     # of that name is already loaded or found first on sys.path (a standard-library module, a
     # program compiled earlier from another directory) and cannot handle dotted file names.
@@ -44,6 +43,7 @@ def compile_script(script_path: str) -> CompilerOutput:
     if spec is None or spec.loader is None:
         raise ImportError(f"cannot load program {script_path}")
     script = importlib.util.module_from_spec(spec)
+    timer.start("nada_dsl.compile.compile.__import__")
     try:
         spec.loader.exec_module(script)
     finally:
